@@ -359,7 +359,9 @@ func (x *producerController) handleRegisterConsumer(ctx *ReceiveContext, registe
 		ctx.Watch(ctx.Sender())
 		x.consumerController = ctx.Sender()
 		x.registrationNonce = register.Nonce()
-		x.demandUpTo = x.currentSeq
+		// never raise demand: sequences stored above the last grant (a chunked
+		// message crossing the demand boundary) were never requested
+		x.demandUpTo = min(x.demandUpTo, x.currentSeq)
 	}
 
 	ack, err := commands.NewRegistrationAck(x.sessionID, x.confirmedSeq+1, x.registrationNonce)
@@ -857,7 +859,7 @@ func (x *producerController) handleTerminated(ctx *ReceiveContext, msg *Terminat
 	if x.consumerController != nil && msg.ActorPath().Equals(x.consumerController.Path()) {
 		x.consumerController = nil
 		x.registrationNonce = types.EmptyString
-		x.demandUpTo = x.currentSeq
+		x.demandUpTo = min(x.demandUpTo, x.currentSeq)
 	}
 }
 
